@@ -63,7 +63,7 @@ func initAllowed(path string) bool {
 	case "unicode/utf8", "strconv", "math", "encoding/base64", "bytes", "bufio", "io", "go.uber.org/multierr",
 		"internal/itoa", "math/bits", "unicode", "strings", "sort", "sync/atomic", "internal/bytealg",
 		"time", "unicode/utf16", "internal/stringslite", "slices", "cmp", "log/slog/internal", "context",
-		"go.uber.org/atomic", "path/filepath", "path", "net/url":
+		"go.uber.org/atomic", "path/filepath", "path", "net/url", "log":
 		return true
 	}
 	return strings.HasPrefix(path, "go.uber.org/zap")
@@ -169,7 +169,7 @@ func (P *Program) runPath(wk *Worker, j *Job, opts *Options) {
 	}
 	p := &Path{h: h, w: wk, opts: opts, trail: j.trail, pcset: map[int32]bool{}, vseen: map[int32]bool{},
 		inames: map[string]bool{}, funcs: map[*ssa.Function]int64{}, tokens: map[int32]*Token{},
-		pool: &poolModel{bags: map[*value][]value{}}, extra: map[string]interface{}{}, ranges: map[int32]*rng{}}
+		pool: &poolModel{bags: map[*value][]value{}}, extra: map[string]interface{}{}, ranges: map[int32]*rng{}, tokCache: map[string][]value{}}
 	m := Model{}
 	for k, v := range j.model {
 		m[k] = v
@@ -440,7 +440,7 @@ func (s *SolverStats) Add(o SolverStats) { s.add(o) }
 func (P *Program) buildBase(wk *Worker, opts *Options) (errmsg string) {
 	p := &Path{h: newHarnessRun("<init>", nil), w: wk, opts: opts, pcset: map[int32]bool{}, vseen: map[int32]bool{},
 		inames: map[string]bool{}, funcs: map[*ssa.Function]int64{}, tokens: map[int32]*Token{},
-		pool: &poolModel{bags: map[*value][]value{}}, extra: map[string]interface{}{}, ranges: map[int32]*rng{}}
+		pool: &poolModel{bags: map[*value][]value{}}, extra: map[string]interface{}{}, ranges: map[int32]*rng{}, tokCache: map[string][]value{}}
 	p.setModel(Model{})
 	p.sched = newSched(p)
 	i := P.newInterpreter(p)
